@@ -508,17 +508,8 @@ Qed.
 Lemma flip_gene_truthy g : truthy (flip_gene g) = negb (truthy g).
 Proof. destruct g as [z|b|z]; cbn; try reflexivity; destruct (z =? 0); reflexivity. Qed.
 
-Definition same_type (g h : gene) : Prop :=
-  match g, h with GInt _, GInt _ => True | GBool _, GBool _ => True | GFloat _, GFloat _ => True | _, _ => False end.
-
 Lemma flip_gene_type g : same_type g (flip_gene g).
 Proof. destruct g; exact I. Qed.
-
-(* a bit: 0 / 1 of one of the three types; its complement *)
-Definition is_bit (g : gene) : Prop :=
-  match g with GInt z => z = 0 \/ z = 1 | GBool _ => True | GFloat z => z = 0 \/ z = 1 end.
-Definition complement (g : gene) : gene :=
-  match g with GInt z => GInt (1 - z) | GBool b => GBool (negb b) | GFloat z => GFloat (1 - z) end.
 
 Lemma flip_gene_bit g : is_bit g -> flip_gene g = complement g /\ is_bit (flip_gene g).
 Proof.
@@ -560,11 +551,6 @@ Proof.
 Qed.
 
 (* ------------------------------------------------------------------ mutUniformInt *)
-Definition bound_at (b : bound) (i : nat) : Z :=
-  match b with BScalar z => z | BSeq l => nth i l 0 end.
-Definition bound_covers (b : bound) (n : nat) : Prop :=
-  match b with BScalar _ => True | BSeq l => (n <= length l)%nat end.
-
 Lemma nth_error_zip {A B} (a : list A) (b : list B) k :
   nth_error (zip a b) k = match nth_error a k, nth_error b k with
                           | Some x, Some y => Some (x, y) | _, _ => None end.
